@@ -564,6 +564,19 @@ fn run_line(line: &str, mode: Mode, out: &mut String) {
                 .collect();
             hist_case(kind, cap, &calls, &views, out);
         }
+        "L" => {
+            // alignment: the buffer is handed out at byte offset `off` (0..63) of a 64-byte aligned arena whose other
+            // bytes are `fill` -- in-class filler (`a`) or NUL -- so that a scanner reading a few bytes before or behind
+            // the slice, or taking a different path for an aligned start, shows up as a result that depends on `off`
+            let (kind, entry, cfg, cap) = (f[2], f[3].parse().unwrap(), f[4].parse().unwrap(), f[5].parse().unwrap());
+            let off: usize = f[6].parse().unwrap();
+            let fill: u8 = f[7].parse().unwrap();
+            let data = unhex(f[8]);
+            let mut arena = vec![fill; data.len() + 256];
+            let base = (64 - (arena.as_ptr() as usize) % 64) % 64 + 64 + off % 64;
+            arena[base..base + data.len()].copy_from_slice(&data);
+            api_case(kind, entry, cfg, cap, &arena[base..base + data.len()], out);
+        }
         "R" => {
             // a recycled read buffer: every call gets a fresh Request / Response over a fresh array, but the bytes of
             // every call are written to the SAME address (one allocation, overwritten between the calls; nothing of
